@@ -78,3 +78,198 @@ Qed.
 
 Lemma u_escape_shape b : exists h1 h2, u_escape b = [x5c; x75; x30; x30; h1; h2].
 Proof. unfold u_escape. eauto. Qed.
+
+(* ---- shape of the writer's output --------------------------------------------------------------- *)
+(* a content chunk ends in front of a quotation mark, a backslash, LF or the end of input *)
+Definition hstop (X : bytes) : Prop :=
+  match X with
+  | [] => True
+  | b :: _ => byte_eqb b x22 = true \/ byte_eqb b x5c = true \/ byte_eqb b x0a = true
+  end.
+
+Lemma hstop_basic X : hstop X -> stops (in_class BASIC_UNESCAPED) X.
+Proof. destruct X as [|b X]; [auto|]. apply basic_stop. Qed.
+Lemma hstop_mlb X : hstop X -> stops (in_class MLB_UNESCAPED) X.
+Proof. destruct X as [|b X]; [auto|]. apply mlb_stop. Qed.
+
+Lemma plain_facts is_ml b : plain b = true ->
+  byte_eqb b x22 = false /\ short_escape is_ml b = None /\ byte_eqb b x0a = false /\ is_ctrl b = false.
+Proof.
+  intro H. assert (H22 : byte_eqb b x22 = false) by (byten; lia).
+  assert (Hc : is_ctrl b = false) by (byten; lia).
+  assert (H0a : byte_eqb b x0a = false) by (byten; lia).
+  repeat split; auto. unfold short_escape.
+  assert (E08 : byte_eqb b x08 = false) by (byten; lia). rewrite E08.
+  assert (E09 : byte_eqb b x09 = false) by (byten; lia). rewrite E09.
+  rewrite H0a.
+  assert (E0c : byte_eqb b x0c = false) by (byten; lia). rewrite E0c.
+  assert (E0d : byte_eqb b x0d = false) by (byten; lia). rewrite E0d.
+  assert (E5c : byte_eqb b x5c = false) by (byten; lia). rewrite E5c.
+  reflexivity.
+Qed.
+
+Lemma enc_plain_cons is_ml seq b r : plain b = true -> enc is_ml seq (b :: r) = b :: enc is_ml 0 r.
+Proof.
+  intro H. destruct (plain_facts is_ml b H) as [H1 [H2 [H3 H4]]].
+  cbn [enc]. rewrite H1, H2, H3, H4. reflexivity.
+Qed.
+
+Lemma enc_plain_chunk is_ml : forall c seq b r, forallb plain (b :: c) = true ->
+  enc is_ml seq ((b :: c) ++ r) = (b :: c) ++ enc is_ml 0 r.
+Proof.
+  induction c as [|b' c IH]; intros seq b r H; cbn [forallb] in H; apply andb_true_iff in H as [Hb Hc].
+  - cbn [app]. apply enc_plain_cons. exact Hb.
+  - cbn [app]. rewrite enc_plain_cons by exact Hb. f_equal. apply (IH 0%N b' r). exact Hc.
+Qed.
+
+(* the encoding of a string that starts with a non-plain byte starts with a backslash, a quotation mark or LF *)
+Lemma enc_head_stop is_ml s X : stops plain s -> hstop X -> hstop (enc is_ml 0 s ++ X).
+Proof.
+  intros Hs HX. destruct s as [|b r]; [exact HX|]. cbn in Hs. cbn [enc].
+  destruct (byte_eqb b x22) eqn:E22.
+  { destruct ((if is_ml then 2 else 0) <? 0 + 1)%N; cbn; [right; left; reflexivity|left; reflexivity]. }
+  destruct (short_escape is_ml b) as [c|] eqn:Es.
+  { cbn. right; left; reflexivity. }
+  destruct (byte_eqb b x0a) eqn:E0a.
+  { cbn. right; right; reflexivity. }
+  destruct (is_ctrl b) eqn:Ec.
+  { unfold u_escape. cbn. right; left; reflexivity. }
+  exfalso. unfold plain in Hs. rewrite Ec, E22 in Hs. cbn in Hs.
+  unfold short_escape in Es.
+  destruct (byte_eqb b x08); [discriminate|]. destruct (byte_eqb b x09); [discriminate|].
+  rewrite E0a in Es. destruct (byte_eqb b x0c); [discriminate|]. destruct (byte_eqb b x0d); [discriminate|].
+  destruct (byte_eqb b x5c); [discriminate|]. discriminate.
+Qed.
+
+Lemma forallb_impl {A} (f g : A -> bool) l : (forall x, f x = true -> g x = true) ->
+  forallb f l = true -> forallb g l = true.
+Proof.
+  intros H. induction l as [|x l IH]; [auto|]. cbn. intro Hl. apply andb_true_iff in Hl as [H1 H2].
+  rewrite (H _ H1), (IH H2). reflexivity.
+Qed.
+
+(* cutting a valid string in front of a non-plain byte *)
+Lemma utf8_cut c s1 : stops plain s1 -> utf8_valid_b (c ++ s1) = true ->
+  utf8_valid_b c = true /\ utf8_valid_b s1 = true.
+Proof.
+  intros Hs H. destruct s1 as [|b r].
+  - rewrite app_nil_r in H. auto.
+  - cbn in Hs. apply not_plain_ascii in Hs. destruct (utf8_split c b r Hs H) as [H1 H2].
+    split; [exact H1|]. rewrite utf8_cons_ascii by exact Hs. exact H2.
+Qed.
+
+(* ---- one step and a whole run of a content parser ------------------------------------------------- *)
+Section Content.
+  Variable is_ml : bool.
+  Variable P : parser bytes.
+  Hypothesis P_plain : forall c X p d, c <> [] -> forallb plain c = true -> utf8_valid_b c = true -> hstop X ->
+      P (mkIn (c ++ X) p d) = Ok c (after c X p d).
+  Hypothesis P_simple : forall c v X p d, assoc_byte ESCAPE_SIMPLE c = Some v -> esc_letter c ->
+      P (mkIn (x5c :: c :: X) p d) = Ok (utf8_encode v) (after [x5c; c] X p d).
+  Hypothesis P_hex : forall b X p d, is_ctrl b = true ->
+      P (mkIn (u_escape b ++ X) p d) = Ok [b] (after (u_escape b) X p d).
+  Hypothesis P_lf : is_ml = true -> forall X p d,
+      P (mkIn (x0a :: X) p d) = Ok [x0a] (after [x0a] X p d).
+
+  Lemma content_step b s0 T p d :
+    utf8_valid_b (b :: s0) = true -> (is_ml = true -> byte_eqb b x22 = false) -> hstop T ->
+    exists c1 s1 e1,
+      b :: s0 = c1 ++ s1 /\ length s1 < length (b :: s0) /\ e1 <> [] /\
+      enc is_ml 0 (b :: s0) = e1 ++ enc is_ml 0 s1 /\ utf8_valid_b s1 = true /\
+      P (mkIn (enc is_ml 0 (b :: s0) ++ T) p d) = Ok c1 (after e1 (enc is_ml 0 s1 ++ T) p d).
+  Proof.
+    intros Hu Hq HT.
+    (* a single escaped byte *)
+    assert (Hone : forall e, e <> [] -> (b2n b <= 127)%N ->
+              enc is_ml 0 (b :: s0) = e ++ enc is_ml 0 s0 ->
+              (forall X, P (mkIn (e ++ X) p d) = Ok [b] (after e X p d)) ->
+              exists c1 s1 e1,
+                b :: s0 = c1 ++ s1 /\ length s1 < length (b :: s0) /\ e1 <> [] /\
+                enc is_ml 0 (b :: s0) = e1 ++ enc is_ml 0 s1 /\ utf8_valid_b s1 = true /\
+                P (mkIn (enc is_ml 0 (b :: s0) ++ T) p d) = Ok c1 (after e1 (enc is_ml 0 s1 ++ T) p d)).
+    { intros e He Hb Henc HP. exists [b], s0, e. repeat split; auto.
+      - rewrite utf8_cons_ascii in Hu by exact Hb. exact Hu.
+      - rewrite Henc, <- app_assoc. apply HP. }
+    destruct (byte_eqb b x22) eqn:E22.
+    { destruct is_ml eqn:Eml; [specialize (Hq eq_refl); discriminate|].
+      apply byte_eqb_eq in E22. subst b.
+      destruct quote_escape_spec as [Q1 [Q2 Q3]].
+      apply (Hone [x5c; x22]); [discriminate|vm_compute; discriminate|reflexivity|].
+      intro X. cbn [app]. rewrite (P_simple x22 _ X p d Q1 Q3), Q2. reflexivity. }
+    destruct (short_escape is_ml b) as [c|] eqn:Es.
+    { destruct (short_escape_spec is_ml b c Es) as [S1 [S2 S3]].
+      apply (Hone [x5c; c]); [discriminate| |cbn [enc]; rewrite E22, Es; reflexivity|].
+      - unfold short_escape in Es. pose proof (b2n_lt b).
+        destruct (byte_eqb b x08) eqn:E1; [byten; lia|]. destruct (byte_eqb b x09) eqn:E2; [byten; lia|].
+        destruct (byte_eqb b x0a) eqn:E3; [byten; lia|]. destruct (byte_eqb b x0c) eqn:E4; [byten; lia|].
+        destruct (byte_eqb b x0d) eqn:E5; [byten; lia|]. destruct (byte_eqb b x5c) eqn:E6; [byten; lia|]. discriminate.
+      - intro X. cbn [app]. rewrite (P_simple c _ X p d S1 S3), S2. reflexivity. }
+    destruct (byte_eqb b x0a) eqn:E0a.
+    { assert (Eml : is_ml = true).
+      { unfold short_escape in Es. destruct (byte_eqb b x08); [discriminate|]. destruct (byte_eqb b x09); [discriminate|].
+        rewrite E0a in Es. destruct is_ml; [reflexivity|discriminate]. }
+      apply byte_eqb_eq in E0a. subst b.
+      apply (Hone [x0a]); [discriminate|vm_compute; discriminate| |].
+      - cbn [enc]. rewrite Es. reflexivity.
+      - intro X. cbn [app]. apply P_lf. exact Eml. }
+    destruct (is_ctrl b) eqn:Ec.
+    { apply (Hone (u_escape b)).
+      - unfold u_escape. discriminate.
+      - byten. lia.
+      - cbn [enc]. rewrite E22, Es, E0a, Ec. reflexivity.
+      - intro X. apply P_hex. exact Ec. }
+    (* a plain chunk *)
+    assert (Hp : plain b = true).
+    { unfold plain. rewrite Ec, E22. cbn. unfold short_escape in Es.
+      destruct (byte_eqb b x08); [discriminate|]. destruct (byte_eqb b x09); [discriminate|].
+      rewrite E0a in Es. destruct (byte_eqb b x0c); [discriminate|]. destruct (byte_eqb b x0d); [discriminate|].
+      destruct (byte_eqb b x5c); [discriminate|reflexivity]. }
+    destruct (span_while_split plain s0) as [c [s1 [Hs0 [Hc Hs1]]]].
+    exists (b :: c), s1, (b :: c).
+    assert (Hall : forallb plain (b :: c) = true) by (cbn [forallb]; rewrite Hp, Hc; reflexivity).
+    assert (Hcut : utf8_valid_b (b :: c) = true /\ utf8_valid_b s1 = true).
+    { apply utf8_cut; [exact Hs1|]. cbn [app]. rewrite <- Hs0. exact Hu. }
+    assert (Henc : enc is_ml 0 (b :: s0) = (b :: c) ++ enc is_ml 0 s1).
+    { rewrite Hs0. apply (enc_plain_chunk is_ml c 0%N b s1). exact Hall. }
+    repeat split.
+    - rewrite Hs0. reflexivity.
+    - rewrite Hs0. cbn [length]. rewrite app_length. lia.
+    - discriminate.
+    - exact Henc.
+    - tauto.
+    - rewrite Henc, <- app_assoc. apply P_plain; [discriminate|exact Hall|tauto|].
+      apply enc_head_stop; assumption.
+  Qed.
+
+  (* a run of content: the whole of `c` when it holds no quotation mark that the parser must
+     treat specially (multi-line), ending in front of a tail the content parser refuses *)
+  Lemma content_run : forall n c T acc p d fuel,
+    length c <= n -> utf8_valid_b c = true ->
+    (is_ml = true -> forallb (fun b => negb (byte_eqb b x22)) c = true) ->
+    hstop T -> (forall p' d', exists e i', P (mkIn T p' d') = Bt e i') ->
+    length (enc is_ml 0 c ++ T) < fuel ->
+    chunks_f fuel P acc (mkIn (enc is_ml 0 c ++ T) p d) = Ok (acc ++ c) (after (enc is_ml 0 c) T p d).
+  Proof.
+    induction n as [|n IH]; intros c T acc p d fuel Hn Hu Hq HT Hend Hf.
+    - destruct c; [|cbn in Hn; lia]. cbn [enc app] in *. destruct fuel as [|f]; [lia|].
+      cbn [chunks_f]. destruct (Hend p d) as [e [i' He]]. rewrite He. rewrite app_nil_r, after_nil. reflexivity.
+    - destruct c as [|b s0].
+      { cbn [enc app] in *. destruct fuel as [|f]; [lia|].
+        cbn [chunks_f]. destruct (Hend p d) as [e [i' He]]. rewrite He. rewrite app_nil_r, after_nil. reflexivity. }
+      assert (Hb : is_ml = true -> byte_eqb b x22 = false).
+      { intro E. specialize (Hq E). cbn [forallb] in Hq. apply andb_true_iff in Hq as [Hq _].
+        destruct (byte_eqb b x22); [discriminate|reflexivity]. }
+      destruct (content_step b s0 T p d Hu Hb HT) as [c1 [s1 [e1 [Hs [Hl [He1 [Henc [Hu1 HP]]]]]]]].
+      destruct fuel as [|f]; [lia|]. cbn [chunks_f]. rewrite HP.
+      unfold after. cbn [rest].
+      assert (Hlen : Nat.eqb (length (enc is_ml 0 s1 ++ T)) (length (enc is_ml 0 (b :: s0) ++ T)) = false).
+      { apply Nat.eqb_neq. rewrite Henc. rewrite !app_length. destruct e1; [congruence|]. cbn [length]. lia. }
+      rewrite Hlen.
+      assert (Hq1 : is_ml = true -> forallb (fun b => negb (byte_eqb b x22)) s1 = true).
+      { intro E. specialize (Hq E). rewrite Hs in Hq. rewrite forallb_app in Hq. apply andb_true_iff in Hq. tauto. }
+      rewrite (IH s1 T (acc ++ c1) (p + N.of_nat (length e1))%N d f); auto.
+      + apply ok_inp; [rewrite Hs, app_assoc; reflexivity|]. rewrite Henc. apply mkIn_eq; [reflexivity|rewrite app_length; lia].
+      + cbn [length] in *. lia.
+      + rewrite Henc in Hf. rewrite !app_length in *. destruct e1; [congruence|]. cbn [length] in *. lia.
+  Qed.
+End Content.
